@@ -1,4 +1,5 @@
 import JwtProofs.Subject
+import Props.FnTie
 /-!
 # C16 — subject containment and wildcard detection agree with NATS matching semantics
 
